@@ -35,7 +35,7 @@ func init() {
 			"several servers and several global layer4 blocks, listener-wrapper form; <ranges...> options occasionally use the private_ranges shortcut their parsers accept); between two generated files a Caddyfile that must be rejected is adapted (unknown matcher set / handler / matcher at nesting depths 1-3), which has to fail cleanly and leave the next adaptation unaffected; oracles: (i) adapter output == expected JSON printed independently from the " +
 			"documented JSON structure (semantic comparison), (ii) adapting twice is byte-identical, (iii) the adapted JSON passes caddy.Validate (loads and provisions), " +
 			"(iv) every module's JSON survives unmarshal+marshal (layer4.App, layer4.ListenerWrapper and each nested module with strict decoding). " +
-			"non-trivial = uses >= 2 distinct modules and >= 1 option; distinct = hash of the sorted multiset of (module, option) names used",
+			"non-trivial = uses >= 2 distinct modules and >= 1 option; distinct = hash of the sorted multiset of (module, option) names used. allow lists of the proxy_protocol handler hold CIDRs and plain addresses of both families; now and then an integer option gets an absurdly large value: the adapter may refuse the Caddyfile, and if it adapts it the JSON must carry the same digits (those cases are not compared further).",
 		Assumptions: []string{
 			"expected JSON follows the struct tags / doc comments of the modules and of the Caddy modules they embed (tls.handshake_match.*, http.matchers.*, tls.ca_pool.source.*, reverseproxy.TLSConfig, caddytls.ConnectionPolicy); zero values are absent (omitempty)",
 			"caddy.Validate provisions every module without binding listeners; configurations whose provisioning needs ACME are not validated (counted as abstentions)",
